@@ -6,7 +6,6 @@ import (
 	"io"
 	"net"
 	"os"
-	"os/user"
 	"strconv"
 	"strings"
 
@@ -166,11 +165,18 @@ func runCfg(cfg *config.Config) (out compiled) {
 			out = compiled{status: "crash"}
 		}
 	}()
-	if err := config.ValidateOwnerGroups(cfg.OwnerGroupsInclude, cfg.OwnerGroupsExclude); err != nil {
-		return compiled{status: "invalid:ownergroups"}
-	}
+	// exactly what cmd/root.go does: cfg.Validate(); the refusal is classified by its message
 	if err := cfg.Validate(); err != nil {
-		return compiled{status: "invalid:loopbackcidr"}
+		switch msg := err.Error(); {
+		case strings.Contains(msg, "owner groups"):
+			return compiled{status: "invalid:ownergroups"}
+		case strings.Contains(msg, "CIDR"):
+			return compiled{status: "invalid:loopbackcidr"}
+		case strings.Contains(msg, "FORCE_IPTABLES_BINARY"):
+			return compiled{status: "invalid:binary"}
+		default:
+			return compiled{status: "invalid:other"}
+		}
 	}
 	ext := &recorder{}
 	ipt, err := capture.NewIptablesConfigurator(cfg, ext)
@@ -193,65 +199,175 @@ func runCfg(cfg *config.Config) (out compiled) {
 
 // ---------------------------------------------------------------- the configuration as the binary builds it
 
-// flagNames maps the raw fields to the real command-line flags (constants of the repository).
-func (r rawCfg) flagArgs() []string {
-	var a []string
-	add := func(name, v string) {
-		if v != "" {
-			a = append(a, "--"+name+"="+v)
+// The external contract of istio-iptables, written down here as LITERAL strings (not taken from the
+// constants of the code under test): command-line flag, environment variable bound to it by flag.BindEnv,
+// additional environment variable (flag.AdditionalEnv).
+type contractEntry struct{ field, flag, env, alt string }
+
+var contract = []contractEntry{
+	{"ProxyPort", "envoy-port", "", ""},
+	{"InboundCapturePort", "inbound-capture-port", "INBOUND_CAPTURE_PORT", ""},
+	{"InboundTunnelPort", "inbound-tunnel-port", "INBOUND_TUNNEL_PORT", ""},
+	{"ProxyUID", "proxy-uid", "PROXY_UID", ""},
+	{"ProxyGID", "proxy-gid", "PROXY_GID", ""},
+	{"Mode", "istio-inbound-interception-mode", "ISTIO_INBOUND_INTERCEPTION_MODE", ""},
+	{"TProxyMark", "istio-inbound-tproxy-mark", "ISTIO_INBOUND_TPROXY_MARK", ""},
+	{"InboundInclude", "istio-inbound-ports", "ISTIO_INBOUND_PORTS", ""},
+	{"InboundExclude", "istio-local-exclude-ports", "ISTIO_LOCAL_EXCLUDE_PORTS", ""},
+	{"OutPortsInclude", "istio-outbound-ports", "ISTIO_OUTBOUND_PORTS", ""},
+	{"OutPortsExclude", "istio-local-outbound-ports-exclude", "ISTIO_LOCAL_OUTBOUND_PORTS_EXCLUDE", ""},
+	{"OutInclude", "istio-service-cidr", "ISTIO_SERVICE_CIDR", ""},
+	{"OutExclude", "istio-service-exclude-cidr", "ISTIO_SERVICE_EXCLUDE_CIDR", ""},
+	{"KubeVirt", "kube-virt-interfaces", "KUBE_VIRT_INTERFACES", ""},
+	{"ExclIfs", "istio-exclude-interfaces", "ISTIO_EXCLUDE_INTERFACES", ""},
+	{"RedirectDNS", "redirect-dns", "REDIRECT_DNS", "ISTIO_META_DNS_CAPTURE"},
+	{"DropInvalid", "drop-invalid", "DROP_INVALID", "INVALID_DROP"},
+	{"CaptureAllDNS", "capture-all-dns", "CAPTURE_ALL_DNS", ""},
+	{"DualStack", "dual-stack", "DUAL_STACK", "ISTIO_DUAL_STACK"},
+}
+
+const (
+	envOwnerGroupsInclude = "ISTIO_OUTBOUND_OWNER_GROUPS"
+	envOwnerGroupsExclude = "ISTIO_OUTBOUND_OWNER_GROUPS_EXCLUDE"
+	envLoopbackCidr       = "ISTIO_OUTBOUND_IPV4_LOOPBACK_CIDR"
+	envEnvoyUser          = "ENVOY_USER"
+	defaultEnvoyUser      = "istio-proxy"
+	defaultProxyUID       = "1337"
+)
+
+var otherEnvNames = []string{
+	"ISTIO_INBOUND_TPROXY_ROUTE_TABLE", "DRY_RUN", "IPTABLES_PROBE_PORT", "PROBE_TIMEOUT", "SKIP_RULE_APPLY", "RUN_VALIDATION",
+	"NETWORK_NAMESPACE", "CNI_MODE", "RECONCILE", "CLEANUP_ONLY", "FORCE_APPLY", "NATIVE_NFTABLES", "FORCE_IPTABLES_BINARY",
+	"ENVOY_PORT",
+}
+
+// envCase = one invocation of the binary: values, the source that carries each of them, and the host.
+type envCase struct {
+	vals      rawCfg            // values; OwnerGroups*/LoCidr are environment-only ("" = variable unset)
+	dual      bool              // --dual-stack
+	addrs     []string          // net.InterfaceAddrs(), in order
+	via       map[string]string // field -> "env" | "alt" (default: flag)
+	envoyUser string            // ENVOY_USER ("" = unset)
+	uid       string            // what an empty --proxy-uid must default to (observed: passwd entry or 1337)
+	resolv    []string          // nameservers of /etc/resolv.conf (observed)
+}
+
+func (e envCase) value(field string) (string, bool) {
+	b := func(x bool) (string, bool) {
+		if x {
+			return "true", true
+		}
+		return "", false
+	}
+	v := e.vals
+	switch field {
+	case "ProxyPort":
+		return v.ProxyPort, v.ProxyPort != ""
+	case "InboundCapturePort":
+		return v.InboundCapturePort, v.InboundCapturePort != ""
+	case "InboundTunnelPort":
+		return v.InboundTunnelPort, v.InboundTunnelPort != ""
+	case "ProxyUID":
+		return v.ProxyUID, v.ProxyUID != ""
+	case "ProxyGID":
+		return v.ProxyGID, v.ProxyGID != ""
+	case "Mode":
+		return v.Mode, v.Mode != ""
+	case "TProxyMark":
+		return v.TProxyMark, v.TProxyMark != ""
+	case "InboundInclude":
+		return v.InboundInclude, v.InboundInclude != ""
+	case "InboundExclude":
+		return v.InboundExclude, v.InboundExclude != ""
+	case "OutPortsInclude":
+		return v.OutPortsInclude, v.OutPortsInclude != ""
+	case "OutPortsExclude":
+		return v.OutPortsExclude, v.OutPortsExclude != ""
+	case "OutInclude":
+		return v.OutInclude, v.OutInclude != ""
+	case "OutExclude":
+		return v.OutExclude, v.OutExclude != ""
+	case "KubeVirt":
+		return v.KubeVirt, v.KubeVirt != ""
+	case "ExclIfs":
+		return v.ExclIfs, v.ExclIfs != ""
+	case "RedirectDNS":
+		return b(v.RedirectDNS)
+	case "DropInvalid":
+		return b(v.DropInvalid)
+	case "CaptureAllDNS":
+		return b(v.CaptureAllDNS)
+	case "DualStack":
+		return b(e.dual)
+	}
+	return "", false
+}
+
+func (e envCase) viaToken() string {
+	var parts []string
+	for _, c := range contract {
+		if s := e.via[c.field]; s != "" {
+			parts = append(parts, c.field+"="+s)
 		}
 	}
-	add(constants.EnvoyPort, r.ProxyPort)
-	add(constants.InboundCapturePort, r.InboundCapturePort)
-	add(constants.InboundTunnelPort, r.InboundTunnelPort)
-	add(constants.ProxyUID, r.ProxyUID)
-	add(constants.ProxyGID, r.ProxyGID)
-	add(constants.InboundInterceptionMode, r.Mode)
-	add(constants.InboundTProxyMark, r.TProxyMark)
-	add(constants.InboundPorts, r.InboundInclude)
-	add(constants.LocalExcludePorts, r.InboundExclude)
-	add(constants.OutboundPorts, r.OutPortsInclude)
-	add(constants.LocalOutboundPortsExclude, r.OutPortsExclude)
-	add(constants.ServiceCidr, r.OutInclude)
-	add(constants.ServiceExcludeCidr, r.OutExclude)
-	add(constants.RerouteVirtualInterfaces, r.KubeVirt)
-	add(constants.ExcludeInterfaces, r.ExclIfs)
-	if r.RedirectDNS {
-		a = append(a, "--"+constants.RedirectDNS)
+	if e.envoyUser != "" {
+		parts = append(parts, "user="+e.envoyUser)
 	}
-	if r.DropInvalid {
-		a = append(a, "--"+constants.DropInvalid)
-	}
-	if r.CaptureAllDNS {
-		a = append(a, "--"+constants.CaptureAllDNS)
-	}
-	return a
+	return wire.EncList(parts)
 }
 
-var flagEnvNames = []string{
-	"ENVOY_PORT", "INBOUND_CAPTURE_PORT", "INBOUND_TUNNEL_PORT", "PROXY_UID", "PROXY_GID", "ISTIO_INBOUND_INTERCEPTION_MODE",
-	"ISTIO_INBOUND_TPROXY_MARK", "ISTIO_INBOUND_TPROXY_ROUTE_TABLE", "ISTIO_INBOUND_PORTS", "ISTIO_LOCAL_EXCLUDE_PORTS",
-	"ISTIO_EXCLUDE_INTERFACES", "ISTIO_SERVICE_CIDR", "ISTIO_SERVICE_EXCLUDE_CIDR", "ISTIO_OUTBOUND_PORTS",
-	"ISTIO_LOCAL_OUTBOUND_PORTS_EXCLUDE", "KUBE_VIRT_INTERFACES", "DRY_RUN", "IPTABLES_PROBE_PORT", "PROBE_TIMEOUT",
-	"SKIP_RULE_APPLY", "RUN_VALIDATION", "REDIRECT_DNS", "ISTIO_META_DNS_CAPTURE", "DROP_INVALID", "INVALID_DROP", "DUAL_STACK",
-	"ISTIO_DUAL_STACK", "CAPTURE_ALL_DNS", "NETWORK_NAMESPACE", "CNI_MODE", "RECONCILE", "CLEANUP_ONLY", "FORCE_APPLY",
-	"NATIVE_NFTABLES", "FORCE_IPTABLES_BINARY", "ENVOY_USER",
+func (e envCase) tokens() []string {
+	t := e.vals.tokens()
+	t[0] = "envcfg"
+	return append(t, wire.Enc(e.uid), wire.EncList(e.resolv), wire.B(e.dual), wire.EncList(e.addrs), e.viaToken())
 }
 
-func setOrUnset(name, v string, set bool) {
-	if set {
-		os.Setenv(name, v)
-	} else {
-		os.Unsetenv(name)
+func envCaseFromTokens(t []string) (envCase, bool) {
+	if len(t) != 30 || t[0] != "envcfg" {
+		return envCase{}, false
 	}
+	v, ok := rawFromTokens(append([]string{"cfg"}, t[1:25]...))
+	if !ok {
+		return envCase{}, false
+	}
+	e := envCase{vals: v, uid: wire.Dec(t[25]), resolv: wire.DecList(t[26]), dual: t[27] == "1", addrs: wire.DecList(t[28]),
+		via: map[string]string{}}
+	for _, p := range wire.DecList(t[29]) {
+		if k, val, ok := strings.Cut(p, "="); ok {
+			if k == "user" {
+				e.envoyUser = val
+			} else {
+				e.via[k] = val
+			}
+		}
+	}
+	return e, true
 }
 
-// envoyUID is what FillConfigFromEnvironment falls back to for an empty --proxy-uid.
-func envoyUID() string {
-	if u, err := user.Lookup("istio-proxy"); err == nil {
-		return u.Uid
+// passwdUID reads the uid of a user from /etc/passwd (literal parse, not os/user).
+func passwdUID(name string) (string, bool) {
+	b, err := os.ReadFile("/etc/passwd")
+	if err != nil {
+		return "", false
 	}
-	return constants.DefaultProxyUID
+	for _, l := range strings.Split(string(b), "\n") {
+		f := strings.Split(l, ":")
+		if len(f) >= 4 && f[0] == name {
+			return f[2], true
+		}
+	}
+	return "", false
+}
+
+// expectedUID: the documented default of --proxy-uid: the uid of ENVOY_USER (default istio-proxy), else 1337.
+func expectedUID(envoyUser string) string {
+	if envoyUser == "" {
+		envoyUser = defaultEnvoyUser
+	}
+	if u, ok := passwdUID(envoyUser); ok {
+		return u
+	}
+	return defaultProxyUID
 }
 
 func resolvServers() []string {
@@ -263,39 +379,74 @@ func resolvServers() []string {
 }
 
 // runRealEnv builds the configuration the way the istio-iptables binary does: config.DefaultConfig(),
-// the real flag set (cmd.bindCmdlineFlags through the verif hook) parsing real arguments, then
-// Config.FillConfigFromEnvironment() (environment variables, pod address family, /etc/resolv.conf).
-// `~` in an environment-only field = variable unset.
-func runRealEnv(r rawCfg, ogInclSet, ogExclSet, loSet bool) (out compiled, filled rawCfg) {
+// the real flag set (cmd.bindCmdlineFlags through the verif hook; flag.BindEnv / AdditionalEnv read the
+// environment while binding) parsing real arguments, then Config.FillConfigFromEnvironment()
+// (environment variables, net.InterfaceAddrs through config.LocalIPAddrs, /etc/resolv.conf, passwd).
+func runRealEnv(e envCase) (out compiled, filled rawCfg) {
 	defer func() {
-		if e := recover(); e != nil {
+		if r := recover(); r != nil {
 			out = compiled{status: "crash"}
 		}
 	}()
-	for _, n := range flagEnvNames {
+	for _, c := range contract {
+		if c.env != "" {
+			os.Unsetenv(c.env)
+		}
+		if c.alt != "" {
+			os.Unsetenv(c.alt)
+		}
+	}
+	for _, n := range otherEnvNames {
 		os.Unsetenv(n)
 	}
-	setOrUnset(constants.OwnerGroupsInclude.Name, r.OwnerGroupsInclude, ogInclSet)
-	setOrUnset(constants.OwnerGroupsExclude.Name, r.OwnerGroupsExclude, ogExclSet)
-	setOrUnset(constants.HostIPv4LoopbackCidr.Name, r.LoCidr, loSet)
-	addr := "10.1.2.3"
-	if r.IPv6 {
-		addr = "2001:db8::3"
+	setOrUnset := func(name, v string) {
+		if v != "" {
+			os.Setenv(name, v)
+		} else {
+			os.Unsetenv(name)
+		}
+	}
+	setOrUnset(envOwnerGroupsInclude, e.vals.OwnerGroupsInclude)
+	setOrUnset(envOwnerGroupsExclude, e.vals.OwnerGroupsExclude)
+	setOrUnset(envLoopbackCidr, e.vals.LoCidr)
+	setOrUnset(envEnvoyUser, e.envoyUser)
+	var args []string
+	for _, c := range contract {
+		v, ok := e.value(c.field)
+		if !ok {
+			continue
+		}
+		switch e.via[c.field] {
+		case "env":
+			os.Setenv(c.env, v)
+		case "alt":
+			os.Setenv(c.alt, v)
+		default:
+			args = append(args, "--"+c.flag+"="+v)
+		}
 	}
 	old := config.LocalIPAddrs
 	config.LocalIPAddrs = func() ([]net.Addr, error) {
-		return []net.Addr{&net.IPNet{IP: net.ParseIP("127.0.0.1"), Mask: net.CIDRMask(8, 32)},
-			&net.IPNet{IP: net.ParseIP(addr), Mask: net.CIDRMask(32, 128)}}, nil
+		var l []net.Addr
+		for _, a := range e.addrs {
+			ip := net.ParseIP(a)
+			bits := 128
+			if ip.To4() != nil {
+				bits = 32
+			}
+			l = append(l, &net.IPNet{IP: ip, Mask: net.CIDRMask(bits, bits)})
+		}
+		return l, nil
 	}
 	defer func() { config.LocalIPAddrs = old }()
 	cfg := config.DefaultConfig()
 	c := &cobra.Command{Use: "istio-iptables"}
-	iptcmd.VerifBindFlags(cfg, c)
-	if err := c.ParseFlags(r.flagArgs()); err != nil {
-		return compiled{status: "error:flags"}, r
+	iptcmd.VerifBindFlags(cfg, c) // reads the environment
+	if err := c.ParseFlags(args); err != nil {
+		return compiled{status: "error:flags"}, e.vals
 	}
 	if err := cfg.FillConfigFromEnvironment(); err != nil {
-		return compiled{status: "error:environment"}, r
+		return compiled{status: "error:environment"}, rawFromConfig(cfg)
 	}
 	return runCfg(cfg), rawFromConfig(cfg)
 }
